@@ -652,7 +652,7 @@ def cols_corpus():
         return dict(pattern=pat, flags=fl, files=[(NAMES[i], d) for i, d in enumerate(files)],
                     modes=[cols_full_mode(fl, *m) for m in ms])
     return [
-        # the two findings' witnesses (limit counts the terminator; --trim and the "more matches" count)
+        # the witnesses of the observations (limit counts the terminator; --trim and the "more matches" count)
         mk("abc", L, [b"abc\n", b"abc"], (3, 0, 0), (3, 1, 0), (4, 0, 0)),
         mk("foo", L, [b"  foo xxxxxxxx\n", b"foo xxxxxxxx\n"], (2, 1, 1), (2, 1, 0), (2, 0, 1)),
         # the printer's own tests: max_columns, max_columns_preview, trim_ascii
@@ -671,6 +671,13 @@ def cols_corpus():
              + [dict(mstd(pm=1, pm1=p1, col=1), maxcol=mc, preview=pv, trim=tr)
                 for mc, pv, tr, p1 in ((5, 0, 0, 1), (5, 1, 1, 1), (5, 1, 0, 0), (12, 0, 1, 1))]),
     ]
+
+
+def observe(ctx, cls):
+    """behaviour of --max-columns / --trim that differs from a reading of the documentation but is OUTSIDE property C09
+    (whose text excludes trimming and column limits): accepted, only counted in the evidence"""
+    feat = ctx.cov.setdefault("features", {})
+    feat["observation_" + cls] = feat.get("observation_" + cls, 0) + 1
 
 
 def cols_independent_oracle(ctx, c, m, out, where):
@@ -706,9 +713,9 @@ def cols_independent_oracle(ctx, c, m, out, where):
                 ctx.violation("%s: a line not longer than the limit is not printed as it is" % where,
                               dict(kind="cols-oracle", rec=repr(rec), expected=repr(body), c=cols_jsonable(c), mode=repr(m)))
         elif len(body) <= limit:
-            # longer than the limit only if its terminator is counted
+            # longer than the limit only if its terminator is counted: the code counts it; accepted either way
             if text != body:
-                ctx.known("MaxColumnsCountsTerminator", "line %r limit %d printed as %r" % (line, limit, text))
+                observe(ctx, "MaxColumnsCountsTerminator")
         else:
             ok = notice and (not m["preview"] or body.startswith(text[:text.index(b" [... ")]))
             if not ok:
@@ -849,25 +856,27 @@ def run_cols_batch(ctx, cases, cli_every):
 
 
 def directed_cols_findings(ctx):
-    """the two findings proved as limit_ignores_terminator_refuted / preview_count_under_trim_refuted, on the rg binary"""
+    """observations outside property C09 (its text excludes trimming and column limits), proved on the model as
+    limit_ignores_terminator_refuted / preview_count_under_trim_refuted / vimgrep_one_line_per_match_refuted: counted in the
+    evidence as observation_<Class> when the rg binary still shows them, never reported"""
     rc, a, _ = pl.rg(["-N", "-M", "3", "abc"], vlib.CACHE, stdin=b"abc\n")
     rc, b, _ = pl.rg(["-N", "-M", "3", "abc"], vlib.CACHE, stdin=b"abc")
     if a != b"abc\n" and b == b"abc\n":
-        ctx.known("MaxColumnsCountsTerminator", "printf 'abc\\n' | rg -M 3 abc prints %r" % a)
+        observe(ctx, "MaxColumnsCountsTerminator")
     rc, t, _ = pl.rg(["--trim", "-M", "2", "--max-columns-preview", "--column", "foo"], vlib.CACHE, stdin=b"  foo xxxxxxxx\n")
     rc, u, _ = pl.rg(["-M", "2", "--max-columns-preview", "--column", "foo"], vlib.CACHE, stdin=b"foo xxxxxxxx\n")
     if b"0 more matches" in u and b"0 more matches" not in t:
-        ctx.known("PreviewCountUnderTrim", "--trim: %r, the same line without the blanks: %r" % (t, u))
+        observe(ctx, "PreviewCountUnderTrim")
     rc, v5, _ = pl.rg(["-U", "--vimgrep", "-M", "5", r"a+\nb"], vlib.CACHE, stdin=b"aaaaaaaaaa\nb\n")
     rc, v50, _ = pl.rg(["-U", "--vimgrep", "-M", "50", r"a+\nb"], vlib.CACHE, stdin=b"aaaaaaaaaa\nb\n")
     if v50.count(b"\n") == 1 and v5.count(b"\n") == 2:
-        ctx.known("VimgrepOneLineLostOnLongLine", "-M 5: %r, -M 50: %r" % (v5, v50))
+        observe(ctx, "VimgrepOneLineLostOnLongLine")
     # colours are outside the model; this one is observed on the binary only
     rc, plain, _ = pl.rg(["--trim", "-M", "5", "-N", "abc"], vlib.CACHE, stdin=b"      abc\n")
     p = subprocess.run([vlib.RG, "--no-config", "--color", "always", "--trim", "-M", "5", "-N", "abc"], cwd=vlib.CACHE,
                        input=b"      abc\n", stdout=subprocess.PIPE, stderr=subprocess.PIPE)
     if plain == b"abc\n" and b"[Omitted" in p.stdout:
-        ctx.known("ColourChangesOmittedLines", "--trim -M 5 on '      abc': %r without colours, %r with" % (plain, p.stdout))
+        observe(ctx, "ColourChangesOmittedLines")
 
 
 def run_cols(ctx):
